@@ -124,7 +124,7 @@ func (ex *Exec) callCommon(fr *frame, c *ssa.CallCommon, site ssa.Instruction, g
 		}
 	}
 	key := ssaFuncKey(callee)
-	if fc, ok := ex.db.Funcs[key]; ok {
+	if fc, ok := ex.db.Funcs[key]; ok && fc.Attrs["inline"] != "true" {
 		if ex.traceOn {
 			ex.trace = append(ex.trace, Event{Kind: "call", Guard: g, Instr: site, Callee: key, Args: args, St: s.clone(), Depth: len(ex.stack) - 1})
 			ti := len(ex.trace) - 1
@@ -212,7 +212,14 @@ func (ex *Exec) inRepo(fn *ssa.Function) bool {
 	if p == nil {
 		return false
 	}
-	return strings.HasPrefix(p.Pkg.Path(), "github.com/dave/dst") || strings.Contains(p.Pkg.Path(), "astutil")
+	if strings.HasPrefix(p.Pkg.Path(), "github.com/dave/dst") || strings.Contains(p.Pkg.Path(), "astutil") {
+		return true
+	}
+	// a reference implementation verified through the same pipeline (go/ast.NewPackage): callees of its own package
+	if len(ex.stack) > 0 && ex.stack[0].Pkg != nil && ex.stack[0].Pkg == p {
+		return true
+	}
+	return false
 }
 
 func ssaFuncKey(fn *ssa.Function) string {
@@ -437,6 +444,10 @@ func (ex *Exec) appendStructModel(sv, tv Val, st types.Type, g string, s *State)
 func (ex *Exec) inline(callee *ssa.Function, args []Val, bindings []Val, g string, s *State) (string, Val) {
 	fr := ex.newFrame(callee)
 	fr.entry = s.clone()
+	// a contract marked `attr inline` contributes loop invariants (and exit clauses) to the inlined body
+	if fc := ex.db.Funcs[ssaFuncKey(callee)]; fc != nil && fc.Attrs["inline"] == "true" {
+		fr.contract = fc
+	}
 	for i, p := range callee.Params {
 		if i < len(args) {
 			fr.regs[p] = args[i]
